@@ -24,6 +24,12 @@ class MirError(Exception):
     pass
 
 
+class NeedsConcrete(Exception):
+    """Raised by a model that needs a literal where the path has a symbolic term: the path is set
+    aside and its infeasibility under the caller's assumptions becomes an obligation."""
+    pass
+
+
 # ------------------------------------------------------------------------------------------
 # parsing
 class Function:
@@ -222,6 +228,7 @@ class Executor:
             self.models.update(models)
         self.inline = inline or (lambda name: True)
         self.calls_seen = []     # (callee, args) for uninterpreted calls
+        self.dropped_paths = []  # path conditions of paths set aside by NeedsConcrete
         self.models_used = set()
         self.inlined = set()
         self.max_depth = max_depth
@@ -272,9 +279,14 @@ class Executor:
             if steps > 4000:
                 raise MirError("path explosion in " + fname)
             stmts, term = f.blocks[bb]
-            for s in stmts:
-                self.exec_stmt(f, s, env, pc)
-            for nxt in self.exec_term(f, term, env, pc, depth):
+            try:
+                for s in stmts:
+                    self.exec_stmt(f, s, env, pc)
+                nxts = self.exec_term(f, term, env, pc, depth)
+            except NeedsConcrete:
+                self.dropped_paths.append(list(pc))
+                continue
+            for nxt in nxts:
                 if nxt[0] == "ret":
                     results.append((nxt[2], nxt[1], env))
                 else:
@@ -437,6 +449,8 @@ class Executor:
             return self.constant(self.simple_consts[c])
         if c == "()":
             return ("tuple", [])
+        if c.startswith("ZeroSized"):
+            return ("opaque", "0", c)
         if c.startswith('"'):
             return ("opaque", "0", "str")
         if re.match(r"^[A-Za-z_][\w:]*$", c) and c.split("::")[-1].isupper():
@@ -528,6 +542,18 @@ class Executor:
         if a[0] != "int" or b[0] != "int":
             raise MirError("binop %s on %s,%s" % (op, a[0], b[0]))
         x, y, bits, sg = a[1], b[1], a[2], a[3]
+        cx, cy = const_value(x), const_value(y)
+        if cx is not None and cy is not None:
+            folded = {"Lt": cx < cy, "Le": cx <= cy, "Gt": cx > cy, "Ge": cx >= cy, "Eq": cx == cy, "Ne": cx != cy}
+            if op in folded:
+                return mk_bool("true" if folded[op] else "false")
+            lo0 = -(1 << (bits - 1)) if sg else 0
+            hi0 = (1 << (bits - 1)) - 1 if sg else (1 << bits) - 1
+            ar = {"Add": cx + cy, "Sub": cx - cy, "Mul": cx * cy}
+            for k2, v2 in ar.items():
+                if op == k2 + "WithOverflow":
+                    o = v2 < lo0 or v2 > hi0
+                    return ("tuple", [mk_int(lit(v2 % (1 << bits) if not sg else v2), bits, sg), mk_bool("true" if o else "false")])
         lo = -(1 << (bits - 1)) if sg else 0
         hi = (1 << (bits - 1)) - 1 if sg else (1 << bits) - 1
 
@@ -627,7 +653,8 @@ class Executor:
                 cs = cs[1:]
             v = self.operand(f, cs, env)
             cond = s_not(v[1]) if neg else v[1]
-            self.obligations.append(("no panic: " + m.group(2), list(pc), cond, f.name))
+            if cond != "true":
+                self.obligations.append(("no panic: " + m.group(2), list(pc), cond, f.name))
             return [("go", m.group(3), env, pc + ([cond] if cond != "true" else []))]
         m = re.match(r"^(.+?) = (.*) -> (?:\[return: (bb\d+), .*\]|(bb\d+)|unwind .*)$", t)
         if m and m.group(2).endswith(")"):
@@ -709,6 +736,9 @@ def const_value(t):
     m = re.match(r"^-?\d+$", t)
     if m:
         return int(t)
+    m = re.match(r"^\(- (\d+)\)$", t)
+    if m:
+        return -int(m.group(1))
     return None
 
 
